@@ -57,6 +57,28 @@ def impl_dict(text: str) -> str:
     return canon(out)
 
 
+def impl_estruct(text: str) -> str:
+    """what estruct.Representation.parse takes from an entry's text: the last USAGE (DISPLAY by default) and the last PICTURE"""
+    import stingray.estruct as E
+
+    usage, pic = "DISPLAY", None
+    for c in E.clause_pattern.finditer(text):
+        g = c.groupdict()
+        if g["usage"]:
+            usage = g["usage"]
+        elif g["picture"]:
+            pic = g["picture"]
+    try:
+        rep = E.Representation.parse(text)
+        if rep.usage != usage:
+            return f"parse().usage={rep.usage} but the pattern's last USAGE is {usage}"
+    except ValueError:
+        pass            # the word after PIC is not a picture (validated by normalize_picture, property C13)
+    except BaseException as ex:  # noqa: BLE001
+        return err_enum(ex)
+    return f"usage={usage.encode().hex()};picture={pic.encode().hex() if pic is not None else '~'}"
+
+
 def gen_clauses(rng) -> list[tuple]:
     """abstract clauses of pairwise different kinds (EXTERNAL / GLOBAL may both appear)"""
     cs: list[tuple] = []
@@ -205,6 +227,18 @@ def explore(ck: Check, n_entries: int, n_soup: int, exhaustive_len: int) -> None
             reqs.append("CLA parse " + hexwords(words))
             impl.append(got)
             inputs.append({"entry": text, "what": "clause_dict of a canonical entry"})
+            # the second reader of the same text (estruct.Representation.parse): same USAGE (DISPLAY when absent) and PICTURE
+            m = meaning(head, cs)
+            want_e = f"usage={m.get('usage', 'DISPLAY').encode().hex()};picture={m['picture'].encode().hex() if 'picture' in m else '~'}"
+            plain = " ".join(words)       # estruct's pattern wants white space inside a clause; separators between clauses only
+            got_e = impl_estruct(plain)
+            ck.oracle_evaluations += 1
+            if got_e != want_e:
+                ck.fail("clause-estruct:" + kinds, f"entry {plain!r}: estruct reads {got_e}, the entry's USAGE / PICTURE are {want_e}",
+                        {"entry": plain, "clauses": [list(map(str, c)) for c in order]})
+            reqs.append("CLA estruct " + hexwords(words))
+            impl.append(got_e)
+            inputs.append({"entry": plain, "what": "estruct's USAGE / PICTURE of a canonical entry"})
     # ---- (ii) word soup
     seqs: list[tuple[str, ...]] = []
     if exhaustive_len:
@@ -219,6 +253,9 @@ def explore(ck: Check, n_entries: int, n_soup: int, exhaustive_len: int) -> None
         reqs.append("CLA parse " + hexwords(list(ws)))
         impl.append(impl_dict(text))
         inputs.append({"entry": text, "what": "clause_dict of a word sequence"})
+        reqs.append("CLA estruct " + hexwords(list(ws)))
+        impl.append(impl_estruct(text))
+        inputs.append({"entry": text, "what": "estruct's USAGE / PICTURE of a word sequence"})
     model = ck.driver.run(reqs)
     keep = [i for i, m in enumerate(model) if m != "unmodelled"]
     ck.histogram["clause/unmodelled"] += len(model) - len(keep)
